@@ -118,7 +118,7 @@ CLAIMED = {
         "Bounded contract checking: for every layout with <= 2 data centres x <= 3 nodes and every choice of the local node (42 shapes), every level, every cursor vector and every outcome of the "
         "random choice: a successful selection holds only current members other than the local node, no duplicates, at least the number the level requires (exactly n for One/Two/Three, everybody "
         "else for All, per-data-centre majorities for EachQuorum); NotEnoughNodes only when fewer other nodes exist than required; the cursors left behind are again in the range the contract starts "
-        "from (inductive step over selection histories). SetNodes: the layout afterwards is exactly the update (a data centre that left is gone), cursors fresh, cache emptied. Two defects found by "
+        "from (inductive step over selection histories). SetNodes: the layout afterwards is exactly the update (a data centre that left is gone), cache emptied. Two defects found by "
         "these obligations were repaired (fix: commits 9dd442d, a1c1e4d).",
         "DESIGN.md section 9.12 (C15)",
         "NOT decided: layouts with three or more data centres (every shape tried ran out of memory: the random choice makes the vector of (&name, &mut cycler) pairs symbolic); the 2 s selection cache "
